@@ -31,7 +31,7 @@ const FIELD_NAMES: &[&str] = &[
 const VARIANT_NAMES: &[&str] = &["A", "B", "Cee", "Dee", "UnitOne", "Struct", "New", "r#type", "r#Second", "r#fn", "HTTPServer", "snake_like", "\u{c9}t\u{e9}", "\u{e9}", "__", "X1"];
 const PATHS: &[&str] = &[
     "f", "Self::new", "Default::default", "my::module::func", "::std::default::Default::default",
-    "make::<u8>",
+    "make::<u8>", "Conv<u8>::go", "Vec<String>", "<T as Tr>::f", "a::<b>::c", "crate::f", "r#fn", "Self",
 ];
 const RULES: &[&str] = &[
     "snake_case", "camelCase", "PascalCase", "SCREAMING_SNAKE_CASE", "kebab-case", "lowercase",
@@ -375,6 +375,34 @@ pub fn derive_input(d: &mut D) -> (String, Stats) {
             let vname = *d.pick(&["V", "\u{c9}t\u{e9}", "__"]);
             s.push_str(&format!("#[darling(rename_all = \"{}\")]\nenum Rcv {{ A, #[darling(rename = \"v\")] {} {{\n{}}} }}", rule, vname, fields));
         }
+        return (s, st);
+    }
+    if d.ratio(1, 40) {
+        // every place a user callable can be named - the converters of the pass-through fields included - with
+        // paths in every spelling a quoted path admits (type-style generic arguments, qualified self, raw segments)
+        let mut body = String::new();
+        let mut callable = |d: &mut D| -> String {
+            let p = *d.pick(&["f", "m::f", "Conv<u8>::go", "Vec<String>", "Conv::<u8>::go", "<T as Tr>::f", "a::<b>::c", "r#fn", "::m::f", "Self::f"]);
+            if d.ratio(2, 3) { format!("\"{}\"", p) } else { p.to_string() }
+        };
+        for (name, ty) in [("data", "darling::ast::Data<(), ()>"), ("attrs", "Vec<syn::Attribute>"), ("fields", "darling::ast::Fields<()>"), ("ident", "syn::Ident"), ("generics", "syn::Generics")] {
+            if d.bool() {
+                let opt = if d.ratio(3, 4) { format!("#[darling(with = {})] ", callable(d)) } else { String::new() };
+                body.push_str(&format!("{}{}: {},\n", opt, name, ty));
+            }
+        }
+        for k in 0..d.below(3) {
+            let opt = *d.pick(&["with", "map", "and_then", "default"]);
+            body.push_str(&format!("#[darling({} = {})] o{}: u8,\n", opt, callable(d), k));
+        }
+        let copt = match d.below(4) {
+            0 => format!(", map = {}", callable(d)),
+            1 => format!(", and_then = {}", callable(d)),
+            2 => format!(", default = {}", callable(d)),
+            _ => String::new(),
+        };
+        st.shape = "callables-everywhere".into();
+        s.push_str(&format!("#[darling(attributes(my), forward_attrs{})]\nstruct Rcv {{\n{}}}", copt, body));
         return (s, st);
     }
     s.push_str(&attrs(d, Pos::Container, &mut st, 8));
